@@ -79,7 +79,7 @@ class Event:
 
 
 class State:
-    __slots__ = ('env', 'mem', 'facts', 'events', 'conds', 'status', 'ret', 'ret_node', 'loopdepth', 'notes')
+    __slots__ = ('env', 'mem', 'facts', 'events', 'conds', 'status', 'ret', 'ret_node', 'loopdepth', 'notes', 'forall')
 
     def __init__(self):
         self.env = {}
@@ -92,6 +92,7 @@ class State:
         self.ret_node = None
         self.loopdepth = 0
         self.notes = []
+        self.forall = []
 
     def fork(self):
         s = State()
@@ -105,7 +106,21 @@ class State:
         s.ret_node = self.ret_node
         s.loopdepth = self.loopdepth
         s.notes = list(self.notes)
+        s.forall = list(self.forall)
         return s
+
+
+def _breaks_loop(node):
+    """A `break` that leaves *this* loop (breaks inside nested switches / loops do not count)."""
+    if not isinstance(node, dict):
+        return False
+    k = node.get('k')
+    if k == 'BreakStmt':
+        return True
+    if k in ('SwitchStmt', 'ForStmt', 'WhileStmt', 'DoStmt'):
+        return False
+    from .facts import children
+    return any(_breaks_loop(c) for c in children(node))
 
 
 class _FakeState:
@@ -1266,10 +1281,27 @@ class Interp:
             h = st.fork()
             self.counter += 1
             lid = self.counter
+            mono = self._monotone_counters(node, w, st)
+            sig = self._loop_signature(node, w, st)
             for vid, ref in w.items():
                 s = '%s@L%d' % (ref['name'], lid)
                 self.types[s] = ref.get('dT')
                 h.env[vid] = Rat.sym(s)
+                if vid in mono:
+                    direction, start = mono[vid]
+                    if start is not None:
+                        # a counter that only moves one way never passes back over its initial value
+                        self._assume1(h, Rat.sym(s) - Rat.const(start), '>=' if direction > 0 else '<=', True)
+            # facts that an earlier loop over the same range established for every iteration
+            for (osig, olid, names, facts) in st.forall:
+                if osig != sig:
+                    continue
+                for key, iv in facts.items():
+                    nk = key
+                    for nm in names:
+                        nk = nk.replace('%s@L%d' % (nm, olid), '%s@L%d' % (nm, lid))
+                    old_iv = h.facts.get(nk)
+                    h.facts[nk] = self._meet(old_iv, iv) if old_iv is not None else iv.copy()
             # memory written in the loop is forgotten
             for key in list(h.mem):
                 h.mem.pop(key) if any(key.startswith(p) for p in self._written_mem_prefixes(body, h)) else None
@@ -1294,7 +1326,32 @@ class Interp:
                     exited.append(s)
                 else:
                     rets.append(s)
+            # universally quantified facts: what every completed iteration established about cells indexed by the counter
+            common = None
+            tag = '@L%d' % lid
             for s in cont:
+                mine = {k: v for k, v in s.facts.items() if tag in k}
+                if common is None:
+                    common = mine
+                else:
+                    nxt_ = {}
+                    for k, v in common.items():
+                        o = mine.get(k)
+                        if o is None:
+                            continue
+                        hv = Interval()
+                        if v.lo is not None and o.lo is not None:
+                            hv.lo, hv.los = (v.lo, v.los) if v.lo < o.lo or (v.lo == o.lo and not v.los) else (o.lo, o.los)
+                        if v.hi is not None and o.hi is not None:
+                            hv.hi, hv.his = (v.hi, v.his) if v.hi > o.hi or (v.hi == o.hi and not v.his) else (o.hi, o.his)
+                        hv.nz = v.nz and o.nz
+                        nxt_[k] = hv
+                    common = nxt_
+            # only loops whose body leaves early by `return` (never by `break`) validate every element
+            no_break = not _breaks_loop(body or {})
+            for s in cont:
+                if common and no_break and sig is not None:
+                    s.forall.append((sig, lid, [ref['name'] for ref in w.values()], common))
                 if inc is not None:
                     try:
                         self.eval(inc, s)
@@ -1318,6 +1375,47 @@ class Interp:
                 else:
                     pass
         return exited, rets
+
+    def _loop_signature(self, node, w, st):
+        """Same initialisation, same bound, same step over the same values => same iteration range."""
+        if node.get('k') != 'ForStmt' or not node.get('cond'):
+            return None
+        outside = []
+        for n in walk(node['cond']):
+            if n.get('k') == 'DeclRefExpr' and n.get('cls') in ('local', 'param') and n['id'] not in w:
+                v = st.env.get(n['id'])
+                outside.append((n['name'], v.canon() if v is not None else n['name']))
+        init = []
+        for n in walk(node.get('init') or {}):
+            if n.get('k') == 'BinaryOperator' and n.get('op') == '=' and n['c'][0].get('k') == 'DeclRefExpr':
+                try:
+                    init.append((n['c'][0]['name'], self.eval(n['c'][1], st.fork()).canon()))
+                except NotInClass:
+                    return None
+        return (tuple(init), show(node['cond']), show(node.get('inc')), tuple(sorted(set(outside))))
+
+    def _monotone_counters(self, node, w, st):
+        """Loop counters changed only by the increment expression `v++`, `++v`, `v += c`, `v--`, `v -= c`:
+        returns {id: (direction, initial lower/upper bound or None)}."""
+        out = {}
+        if node.get('k') != 'ForStmt' or not node.get('inc'):
+            return out
+        inc = node['inc']
+        cands = {}
+        for n in walk(inc):
+            if n.get('k') == 'UnaryOperator' and n.get('op') in ('++', '--') and n['c'][0].get('k') == 'DeclRefExpr':
+                cands[n['c'][0]['id']] = 1 if n['op'] == '++' else -1
+            if n.get('k') == 'CompoundAssignOperator' and n.get('op') in ('+=', '-=') and n['c'][0].get('k') == 'DeclRefExpr' and \
+                    isinstance(n['c'][1].get('v'), int) and n['c'][1]['v'] > 0:
+                cands[n['c'][0]['id']] = 1 if n['op'] == '+=' else -1
+        body_w = self.written_in(node.get('body') or {})
+        for vid, direction in cands.items():
+            if vid in body_w or vid not in st.env:
+                continue
+            iv = self.interval_of(st.env[vid], st)
+            start = iv.lo if direction > 0 else iv.hi
+            out[vid] = (direction, start)
+        return out
 
     def _written_mem_prefixes(self, body, st):
         pref = set()
